@@ -46,3 +46,37 @@ def impl(op, a, ctx):
     F = Fields(a)
     tx = line_to_tx(F); i = F.nat(); code = F.toks(); amt = F.int(); ht = F.nat(); F.done()
     return 'ok ' + hx(tx.get_transaction_segwit_digest(i, Script(code), amt, ht))
+
+
+# ---- real-chain signature oracle
+from harness import fxsig as _S
+_base_cases = cases
+_base_impl = impl
+
+
+def cases(ctx):  # noqa: F811
+    yield from _base_cases(ctx)
+    spends = _S.pick(ctx.rng, _S.p2wpkh_spends(), ctx.n(50), ctx.thorough)
+    for name, k, j, sig, pub, amount in spends:
+        ht = sig[-1]
+        tx = _S.lib_tx(name, k)
+        code = ['OP_DUP', 'OP_HASH160', _S.h160(pub).hex(), 'OP_EQUALVERIFY', 'OP_CHECKSIG']
+        ctx.count('fixture-sig-' + name); ctx.count(f'fixture-ht-{ht:02x}')
+        def spec(ans, tx=tx, j=j, code=code, ht=ht, amount=amount):
+            return (f's:dig_v0 {tx_to_line(tx)} {j} {toks_str(code)} {amount} {ht}', ans.replace(' chain-signature-verifies', ''))
+        yield Case(f'fx_sig_v0 {name} {k} {j}', 's', nontrivial=True, tag='fixture-sig', spec=spec)
+
+
+def impl(op, a, ctx):  # noqa: F811
+    if op != 'fx_sig_v0':
+        return _base_impl(op, a, ctx)
+    from bitcoinutils.script import Script
+    name, k, j = a[0], int(a[1]), int(a[2])
+    hit = [x for x in _S.p2wpkh_spends() if x[0] == name and x[1] == k and x[2] == j][0]
+    sig, pub, amount = hit[3], hit[4], hit[5]
+    rs = _S.lax_der(sig[:-1])
+    tx = _S.lib_tx(name, k)
+    code = Script(['OP_DUP', 'OP_HASH160', _S.h160(pub).hex(), 'OP_EQUALVERIFY', 'OP_CHECKSIG'])
+    d = tx.get_transaction_segwit_digest(j, code, amount, sig[-1])
+    ok = rs is not None and _S.secp_verify(pub, d, *rs)
+    return f'ok {hx(d)}' + (' chain-signature-verifies' if ok else ' CHAIN-SIGNATURE-DOES-NOT-VERIFY')
